@@ -146,8 +146,10 @@ CHECKS = {
     },
     "C02": {
         "lean": ["DrummerVerif.Props.C02"],
-        "streams": [schedstream("repair", 400, 6000, ["maintain"]), schedstream("general", 100, 1500, ["maintain"]), loopstream(12, 300)],
-        "rule": RULE_SCHED + " | " + RULE_LOOP, "assumptions": DB_ASSUME + ["fleet half of the loop model (dragonboat's ordered config change, start/restart rules) is an assumption validated by the agent harness"],
+        "streams": [schedstream("repair", 400, 6000, ["maintain"]), schedstream("general", 100, 1500, ["maintain"]), loopstream(12, 300),
+                    {"cmd": "agent", "driver": "AgentDriver", "sections": None, "eval_re": r"^case:", "timeout": 1500,
+                     "args": {"quick": ["-reports", "0", "-dispatch", "0"], "thorough": ["-reports", "0", "-dispatch", "4"]}}],
+        "rule": RULE_SCHED + " | " + RULE_LOOP + " | execute step on real NodeHosts (agent harness, scenario part): membership changes fenced by the version on launched, joined and restored replicas", "assumptions": DB_ASSUME + ["fleet half of the loop model (dragonboat's ordered config change, start/restart rules) is an assumption validated by the agent harness"],
     },
     "C13": {
         "lean": ["DrummerVerif.Props.C13"],
